@@ -4,12 +4,14 @@ Model:    lean/DaskModel/Model/Join.lean (pandas merge semantics on one pair of 
           shuffle both sides + partition-wise join; broadcast joins), Model/MergePlan.lean (which plan Merge._lower picks),
           Model/Align.lean (index joins / interleaved concat on the union divisions), Model/MergeAsof.lean (pair_partitions,
           tails / heads, the padded partition-wise merge_asof, pandas' per-row asof semantics)
-Theorems: lean/DaskModel/Props/C39.lean, C39Plan.lean, C39Align.lean, C39Asof.lean
+Theorems: lean/DaskModel/Props/C39.lean, C39Plan.lean, C39Align.lean, C39Asof.lean, C39xAlignDivs.lean
 Tie:      function level: merge_plan (Merge._lower's lowered expression vs MergePlan.lower, no compute), pair_partitions
           (real plan vs the Lean walk + the certificate planOK on the real plan), asof_spec (pandas.merge_asof vs Lean asof),
           asof_pads (compute_tails / compute_heads graphs vs tailOf / headOf), asof_plan (every output partition of
           dd.merge_asof, row by row in order, vs Lean planOut on the real plan), index_join_plan (union divisions, the
-          aligned partitions keep rows / are truthful, every output partition vs Lean alignedJoin), interleave_plan;
+          aligned partitions keep rows / are truthful, every output partition vs Lean alignedJoin), interleave_plan,
+          align_divs / align_apply (props/_c39x_align.py: calc_divisions_for_align, MaybeAlignPartitions._divisions/_lower,
+          Concat axis=1, Merge._lower divisions vs Model/AlignDivs.lean; the lowered operands' partitions vs applyPlan);
           API level: merge / join (inner, left, right, outer, leftsemi; on columns or index; known or unknown divisions;
           hash or broadcast; tasks or disk shuffle; npartitions=; chained merges), concat (both axes, interleave_partitions,
           join inner/outer, projections), merge_asof on columns — vs pandas as multisets of rows (order where promised) and,
@@ -21,12 +23,14 @@ import itertools
 
 from sexp import Sym
 
+from props import _c39x_align as XA
 from props import _dfpart_util as U
 
 PROP = "C39"
 READY = True
 DRIVER = "dm_dfpart"
-LEAN_MODULES = ["DaskModel.Props.C39", "DaskModel.Props.C39Asof", "DaskModel.Props.C39Align", "DaskModel.Props.C39Plan"]
+LEAN_MODULES = ["DaskModel.Props.C39", "DaskModel.Props.C39Asof", "DaskModel.Props.C39Align", "DaskModel.Props.C39Plan",
+                "DaskModel.Props.C39xAlignDivs"]
 CASE_TIMEOUT_S = 90
 ASSUMPTIONS = ["pandas DataFrame.merge on one pair of partitions is the oracle-checked atom; the Lean `inner/left/leftsemi/"
                "outer/right` specification is diffed against pandas on every merge case (NaN keys match NaN keys)",
@@ -34,9 +38,11 @@ ASSUMPTIONS = ["pandas DataFrame.merge on one pair of partitions is the oracle-c
                "closer one with ties going backward, tolerance, allow_exact_matches): diffed on every run (asof_spec); `by=` "
                "is not modelled",
                "a shuffle delivers to partition p a permutation of the rows whose key hashes to p (C40); the alignment step "
-               "Repartition(new_divisions=union, force=True) keeps the rows in order and yields partitions truthful for the "
-               "union divisions (C44: Repart.layer_sound for certified layers; checked on the real repartition in every "
-               "index_join_plan / interleave_plan case)",
+               "is no longer an assumption: Props/C39xAlignDivs composes the common-division computation with C44's "
+               "divisions_total / divisions_rows_order_truthful (frames with legal known divisions whose partitions are "
+               "truthful and in index order — what from_pandas / set_index / sorted sources deliver)",
+               "division values enter the alignment code only through <, ==, min, max: string divisions are tied through a "
+               "strictly monotone word list (the model sees the ranks)",
                "the scan networks prefix_reduction / suffix_reduction return the last row of the most recent / first row of "
                "the next non-empty partition (diffed against tailOf / headOf on every run, not proved)"]
 LEVEL_TEXT = ("Lean 4 theorems for ALL frames and partitionings (multisets of output rows; rows are (key, id)): "
@@ -52,13 +58,23 @@ LEVEL_TEXT = ("Lean 4 theorems for ALL frames and partitionings (multisets of ou
               "partitions aligned to the union divisions = global join; the alignment step is the C44 theorem "
               "Repart.layer_sound, cited as hypothesis and checked on every case); concat_interleave_sorted (rows of all "
               "frames, truthful for the union divisions); concat_axis0_den; "
+              "(3x) the alignment step itself (Model/AlignDivs.lean, for any number of frames and all legal division "
+              "vectors): common_divisions_sorted_unique (strictly increasing with >= 2 entries, or (d, d)), "
+              "align_divisions_valid (calc_divisions_for_align / MaybeAlignPartitions._divisions / Concat._divisions(axis=1) "
+              "never raise and return legal divisions), common_divisions_cover (every input interval is a run of common "
+              "intervals, no boundary invented), common_divisions_guards + aligned_total (Repartition(force=True) onto them "
+              "never raises), aligned_partitions_colocate (rows kept in order, truthful, equal index value => same partition "
+              "number in every frame), aligned_plan_truthful / aligned_plan_colocate (the same for the plan "
+              "MaybeAlignPartitions._lower picks: as they are / SetDivisions / repartition), index_join_eq_global_full, "
+              "index_outer_eq_global_full, aligned_binop_eq_global_full (partition-wise index join / outer pairing = global, "
+              "hypotheses on the INPUT frames only); "
               "(4) merge_asof: pairPartitions_ok (pair_partitions is total and its plan passes the certificate planOK for all "
               "non-decreasing divisions), asof_plan_eq_global and merge_asof_eq_global (for truthful sorted frames the padded "
               "partition-wise merge_asof gives every left row, in order, the match it has in the WHOLE right frame, for "
               "backward / forward / nearest, tolerance and allow_exact_matches). "
               "VALIDATED against pandas only: suffixes, indicator, several key columns, NaN keys, merges on columns of "
-              "merge_asof (left_on/right_on), concat axis=1 and join=inner/outer on the columns, unknown divisions, disk "
-              "shuffle, that unionDivs is what the real divisions are.")
+              "merge_asof (left_on/right_on), the column handling of concat axis=1 (join=inner/outer), unknown divisions, disk "
+              "shuffle; the element-wise operator / pandas concat kernel applied to the paired rows of one partition.")
 LEVEL_NOTE = ("Trusted: Lean kernel + standard axioms; pandas merge / merge_asof kernels on one pair of partitions; HashJoinP2P "
               "needs `distributed` (absent) and is not reachable here; float `broadcast=` bias is not modelled.")
 TECHNIQUE = ("Lean 4 proof (permutation of key classes, distribution of joins over concatenation, loop invariant of the "
@@ -755,6 +771,7 @@ CASES = {"merge": case_merge, "join": case_join, "concat": case_concat, "asof": 
          "index_bcast": case_index_bcast, "pair_partitions": case_pair_partitions, "asof_spec": case_asof_spec,
          "asof_pads": case_asof_pads, "asof_plan": case_asof_plan,
          "index_join_plan": case_index_join_plan, "interleave_plan": case_interleave_plan, "merge_plan": case_merge_plan, "joint": case_joint}
+CASES.update(XA.CASES)
 
 
 def _keys(rng, n, hi, na):
@@ -766,7 +783,7 @@ def _keys(rng, n, hi, na):
 
 def _gen_api(ctx):
     rng = ctx.rng
-    for _ in range(ctx.n(170, 1700)):
+    for _ in range(ctx.n(160, 1700)):
         nl, nr = rng.randint(0, 14), rng.randint(0, 14)
         hi = rng.choice([1, 3, 6, 15])
         na = rng.random() < 0.25
@@ -918,7 +935,7 @@ def _gen_asof_plan(ctx):
 
 def _gen_align(ctx):
     rng = ctx.rng
-    for _ in range(ctx.n(90, 900)):
+    for _ in range(ctx.n(80, 900)):
         n, m = rng.randint(1, 4), rng.randint(1, 4)
         L = U.rand_divisions(rng, n, lo=rng.choice([0, 0, 4]), hi=rng.choice([12, 20]))
         R = list(L) if rng.random() < 0.15 else U.rand_divisions(rng, m, lo=rng.choice([0, 0, 3]), hi=rng.choice([10, 20, 26]))
@@ -1010,4 +1027,4 @@ def _interleave(streams):
 
 def generate(ctx):
     yield from _interleave([_gen_pairs(ctx), _gen_api(ctx), _gen_asof_spec(ctx), _gen_asof_plan(ctx), _gen_align(ctx), _gen_merge_plan(ctx),
-                            _gen_asof_pads(ctx), _gen_joint(ctx)])
+                            _gen_asof_pads(ctx), _gen_joint(ctx), XA.generate(ctx)])
